@@ -22,6 +22,11 @@ ITER = {  # harness -> (iterator regex, replay scenario)
 }
 QS = {"c16_quoted_string_rec": (r"^serializer::nt::quoted_string::<", "nt_quoted_string")}
 
+DD = {"c16_pretty_dedup_rec": (r"_pretty::DedupIterator<.* as std::iter::Iterator>::next$", "ttl_pretty_subject")}
+PRETTY_VIS = [("turtle/src/serializer.rs", "\nmod _pretty;", "\npub(crate) mod _pretty;", 1),
+              ("turtle/src/serializer/_pretty.rs", "\ntrait Dedup: Iterator + Sized {", "\npub(crate) trait Dedup: Iterator + Sized {", 1),
+              ("turtle/src/serializer/_pretty.rs", "\nstruct DedupIterator<I: Iterator> {", "\npub(crate) struct DedupIterator<I: Iterator> {", 1)]
+
 QUICK_ITER = ["c16_light_graph_spo", "c16_fast_graph_bc", "c16_fast_dataset_gspo", "c16_light_dataset_bcd", "c16_fast_dataset_cd"]
 
 
@@ -52,7 +57,17 @@ def specs(tier):
         encoded=["sophia_turtle::serializer::nt::quoted_string"],
         bounds=["4 symbolic bytes of valid UTF-8, per-function recursion bound 1"],
     )
-    return [s1, s2]
+    s3 = kprop.KSpec(
+        package="sophia_turtle", crate_dir="turtle",
+        harness_files={"turtle": [os.path.join(H, "turtle", "c16_dedup.rs")]},
+        harnesses=[Harness("c16_pretty_dedup_rec", unwind=8, unwindset=[(DD["c16_pretty_dedup_rec"][0], 1, "rec")], oracle_unwind=True, timeout=cap,
+                           note="4 symbolic items through the pretty serializer's DedupIterator, recursion bound 1 on its next(); also: output has no consecutive duplicates and drops nothing else")],
+        jobs=1, substitutions=PRETTY_VIS,
+        encoded=["sophia_turtle::serializer::_pretty::DedupIterator::next (stepped once per statement by build_subject_types)"],
+        bounds=["4 symbolic items, per-function recursion bound 1"],
+        assumptions=["visibility of _pretty / Dedup / DedupIterator raised to pub(crate) in the overlay copy (textual substitution, each required to match exactly once)"],
+    )
+    return [s1, s2, s3]
 
 
 def run(ctx):
@@ -67,7 +82,7 @@ def run(ctx):
     # native confirmation: 10^6 elements, 2 MiB stack, dev and release
     scen = {}
     for h in failing:
-        s = (ITER.get(h) or QS.get(h))[1]
+        s = (ITER.get(h) or QS.get(h) or DD.get(h))[1]
         scen.setdefault(s, h)
     open_keys = {e["key"]: e for e in ctx.open_findings()}
     try:
@@ -76,11 +91,14 @@ def run(ctx):
         ctx.inconc("replay crate did not build: %s" % str(e)[-500:])
         return
     try:
-        n = 1000000
         for s, h in sorted(scen.items()):
+            n = 1000000
             outcome = {}
             # which position's rejection makes the function recurse is not known: try every residual position
-            if s == "nt_quoted_string":
+            if s == "ttl_pretty_subject":
+                variants = [s]
+                n = 100000   # the pretty serializer is super-linear: 10^5 statements of one subject take ~20 s in dev
+            elif s == "nt_quoted_string":
                 variants = [s + ":" + c for c in "nrqb"]   # LF, CR, quote, backslash
             elif s.endswith("_spo"):
                 variants = [s + ":" + p for p in "spo"]
